@@ -42,7 +42,8 @@ CHECKS["C19"] = {
              "combination of key-present / list-non-empty), and only the registration methods write the rule tables."
              " R19.7: an endpoint's getData returns None or a value produced by this very receive on every path; a stored field that is not written on the path (the previous message) is never returned."
              " R19.8: a field of the hub that spin both tests and writes (a latch) has its initial value again on every exit of spin on which it was written."
-             ' R19.9: sendData of every endpoint class and of the hub transmits whatever the message is - no path that skips the transmission is selected by a test of the message value (identity tests against None excepted), so falsy payloads such as the empty string of a zero-length datagram are not dropped.'),
+             ' R19.9: sendData of every endpoint class and of the hub transmits whatever the message is - no path that skips the transmission is selected by a test of the message value (identity tests against None excepted), so falsy payloads such as the empty string of a zero-length datagram are not dropped.'
+             ' R19.10: openAll / closeAll call openCom / closeCom on every endpoint in every round of the loop (not short-circuited by, or conditional on, what earlier endpoints returned).'),
     "note": ("Trusted: endpoints honour the CommsObject interface; real socket behaviour (shutdown on an unconnected UDP "
              "socket etc.) is not modelled."),
 }
@@ -78,7 +79,8 @@ CHECKS["C16"] = {
              " R16.6: the path is read positionally (parent walk, append + reverse idiom accepted); setParent does not rewrite the stored cost (the cost is the planner's, measured with the planner's distance)."
              " R16.6 also: generateTree hands generalGenerateTree the planner's own distance and obstruction applied to exactly the two nodes (a pre-filtered obstruction subset is a violation)."
              ' R16.9 accepts copies of the pose (tm(p), p.copy()) and reports any call that rewrites the pose (or the copy the coordinates are read from) between getPosition() and the index call.'
-             ' R16.11: RRTStar.distance is the per-call selection between arcDistance (dmode 1) and distance (normal-form equality, with a path-summary fallback), nothing remembered between calls.'),
+             ' R16.11: RRTStar.distance is the per-call selection between arcDistance (dmode 1) and distance (normal-form equality, with a path-summary fallback), nothing remembered between calls.'
+             ' R16.12: PathNode defines no pickling / copying hook - the R-tree hands back unpickled copies, which must carry the bookkeeping the planner assigned.'),
     "note": "Trusted: purity of caller-supplied callbacks; rtree nearest() (library).",
 }
 
@@ -133,7 +135,7 @@ CHECKS["C01"] = {
              "inv(T)T = I, Ad homomorphism to 5e-6 are NOT decided: they rest on the reference formulas (trusted base)."
              " R01.5: no rigid-motion primitive writes into an array it is given (effects summary through callees and views): the identities are statements about the caller's x, T and w."
              ' The helpers that the rewrite rules read by name (Norm, SafeTrace, SafeCopy, SafeDot, MatMul, SafeClip) are themselves compared with the definition those rules assume (or an equivalent library call), so a changed helper - e.g. a trace that snaps near-identity rotations - is reported at the helper.'),
-    "note": "Trusted: modern_robotics 1.1.1 formulas; rewrite set N1..N37; IEEE arithmetic near the 0/pi branch points is not analysed.",
+    "note": "Trusted: modern_robotics 1.1.1 formulas; rewrite set N1..N42; IEEE arithmetic near the 0/pi branch points is not analysed.",
 }
 
 CHECKS["C17"] = {
@@ -168,7 +170,8 @@ CHECKS["C05"] = {
              " R05.11: pose fields that can come to share one object (the home tool pose and its backup, handed over by plain assignment in restoreOriginalEE) are never mutated in place, only rebound; an in-place writer on either makes a later restore return the changed pose."
              " R05.12: no kernel or helper that an Arm method hands a view of its stored joint vector to (angleMod hands its argument back, reshape is a view) writes into that argument (effects summary of the callee)."
              " R05.12 also covers stores the method itself makes into such a view."
-             ' The joint-limit clamp is decided by exhaustive case analysis (sa/rules/clampcase.py): thetaProtector is interpreted element-wise on one representative per order cell of (joint value, lower limit, upper limit, numeric constants in the code) with np.any guards explored both ways; in every cell the result must be the clamp to the stored limits. R05.14: the body screw list is re-derived from the current home pose and space screws after the last write of either (typestate shared with C06 R06.1).'),
+             ' The joint-limit clamp is decided by exhaustive case analysis (sa/rules/clampcase.py): thetaProtector is interpreted element-wise on one representative per order cell of (joint value, lower limit, upper limit, numeric constants in the code) with np.any guards explored both ways; in every cell the result must be the clamp to the stored limits. R05.14: the body screw list is re-derived from the current home pose and space screws after the last write of either (typestate shared with C06 R06.1).'
+             ' R05.15: restoreOriginalEE stores the original home tool pose on every path (a skipping path only under equality of the two poses as whole transforms).'),
     "note": "Trusted: FKinSpace (C02); parameters documented as transforms are transforms; num_dof >= 1.",
 }
 
@@ -217,7 +220,7 @@ CHECKS["C08"] = {
              "definiteness as numbers, FD o ID = id, energy conservation and agreement of Arm.inverseDynamics/inverseDynamicsC "
              "with the recursion are numerical identities and are NOT decided. Also (R08.4): dependence conformance inside Arm.inverseDynamics - the base step carries (0,0,0,-g) through an operator that reads the same model inputs (joint value, screw, link frames) as the general step's propagation operator."
              ' R08.2 also holds jacobianLink to its definition hstack(Ad(inv(FKLink(theta, i))) @ JacobianSpace(prefix i + 1), zeros), computed from the arguments of the call (rule shared with C06).'),
-    "note": "Trusted: modern_robotics 1.1.1 recursion as the physics reference; rewrite set N1..N37.",
+    "note": "Trusted: modern_robotics 1.1.1 recursion as the physics reference; rewrite set N1..N42.",
 }
 
 CHECKS["C14"] = {
@@ -265,7 +268,8 @@ CHECKS["C04"] = {
              "(reference, rel) in order. Associativity, inverse laws and cross-form equality to 5e-6 are numerical and not decided. Also (R04.5): every compiled primitive reachable from the constructor sync, inv and the frame-conversion helpers has the normal form of the pinned reference (closure obligations), so a defect in exp/log breaks this property's check too."
              " R04.1 also: nothing a constructor form calls on self rewrites the translation rows of the six-vector in place (in-place stores of mutators such as angleMod are bounded to rows 3..5)."
              " R04.6: the constructor forms give the new transform arrays of its own (TM / TAA are never views of the argument, by the NumPy view / copy table; the reference-keeping setters are not handed an argument)."
-             " R04.7: no method of tm stores a computed value in place into a local array whose dtype follows the caller's argument (np.array(x) / reshape / copy without a float dtype), so integer descriptions build the same transform as float ones; element-flow values that an in-place store makes unknown give no verdict (exit 2) instead of a comparison."),
+             " R04.7: no method of tm stores a computed value in place into a local array whose dtype follows the caller's argument (np.array(x) / reshape / copy without a float dtype), so integer descriptions build the same transform as float ones; element-flow values that an in-place store makes unknown give no verdict (exit 2) instead of a comparison."
+             ' R04.8: the two sync functions every constructor form ends in are held to their definitions on all paths (TMtoTAA = [p; vee(log(R))] for every rotation - no shortcut branch); the rule function of C03 R03.2 run under this property.'),
     "note": "Trusted: exp/log/TransInv (C01/C02); scipy Rotation default quaternion convention.",
 }
 
@@ -301,7 +305,8 @@ CHECKS["C13"] = {
              "1e-6 is numerical and not decided. The pose bookkeeping of the chain walk is decided by a symbolic pose walk (products of origins on every path of one iteration, with an inferred loop invariant); locals are identified by role, not by name."
              " R13.5: Arm.FK evaluates the loaded chain at the joint vector it is given or at its clamp to the limits only (no folding of in-limit joint values before the product of exponentials)."
              ' R13.6: every Modern-Robotics primitive in the callee closure of the loader, class tm and Arm.FK (exp / log of rotations that the accumulated joint poses go through) has the normal form of the pinned reference.'
-             " R13.5 includes the clamp case analysis: joint values inside the file's limits reach the product of exponentials unchanged, whatever their magnitude."),
+             " R13.5 includes the clamp case analysis: joint values inside the file's limits reach the product of exponentials unchanged, whatever their magnitude."
+             ' R13.7: Arm.setJointProperties stores the limits it is given unchanged (value-preserving wrappers only), so the loaded arm reports and clamps against the limits written in the file.'),
     "note": "Trusted: ElementTree parsing; tm composition (C04); the chain is strictly serial (as the property states).",
 }
 
@@ -318,7 +323,8 @@ CHECKS["C09"] = {
              "1e-3 is numerical and not decided. R09.2 discovers class-wide every instance field that caches a function of the plate-fixed joint tables (by data dependence) and requires every writer of the tables to refresh or reset each of them on every path; kernel formulas are decided by normal-form equality with a reference implementation written from the definition. R09.5: in the Newton FK kernel the height floor applied to the iterate is at most leg_ext_min/2 (a higher floor excludes poses of flat platforms), the residual driven to zero is squared joint distance minus squared requested length, and the top joints are rotated by the current guess."
              " R09.6: the leg lengths _IKHelper hands back are a snapshot (copy) of self.lengths, so the corrective action on the stored lengths cannot rewrite the vector already returned to the caller."
              " R09.7: no array object is bound both to a plate-fixed joint table and to a space-joint buffer that the IK kernel writes in place."
-             ' R09.8: move(new base) - the pose expression handed to IK is evaluated as a word in the free group over the poses involved (A @ B, inv, localToGlobal = a*b, globalToLocal = inv(a)*b, getters read in place, fields versioned along every branch) and must be new_base * inv(old base) * old top, solved against the new base.'),
+             ' R09.8: move(new base) - the pose expression handed to IK is evaluated as a word in the free group over the poses involved (A @ B, inv, localToGlobal = a*b, globalToLocal = inv(a)*b, getters read in place, fields versioned along every branch) and must be new_base * inv(old base) * old top, solved against the new base.'
+             ' R09.9: SP.FK runs a forward-kinematics solver on every returning path (a shortcut only for lengths exactly equal to the stored ones).'),
     "note": "Trusted: convergence of SPFKinSpaceR's Newton iteration and its Jacobian (not analysed numerically); the bound leg_ext_min/2 on the height floor is taken from the kernel as exercised; tokens name one pose value per path.",
 }
 
@@ -351,7 +357,8 @@ CHECKS["C11"] = {
              " R11.4: the statics table of Robot (staticForces / staticForcesBody / their inverses) is decided in this check too: each entry is the transposed (space / body) Jacobian or its pseudo-inverse applied to the wrench payload, without a frame change of the argument."
              " R11.5: getActuatorLoc(i, 't'/'b') is getUnitVec(own joint of leg i, other joint of leg i, configured offset) with the offset the configured constant itself (never a function of the current leg length), and getUnitVec is first point + unit(second - first) * distance (reference comparison)."
              " R11.6: every path of the four statics methods of Robot records the forces it worked with in self._last_tau, whatever optional arguments it was called with (sumActuatorWrenches() and the other force queries default to it)."
-             " R11.2: constant-trip loops containing `continue` are lowered to branches before unrolling; a leg left out exactly when its force is zero counts as contributed, any other condition under which a leg's wrench is skipped is reported with that condition."),
+             " R11.2: constant-trip loops containing `continue` are lowered to branches before unrolling; a leg left out exactly when its force is zero counts as contributed, any other condition under which a leg's wrench is skipped is reported with that condition."
+             ' R11.7: the leg wrenches are forces at points for every magnitude - makeWrench / Wrench construction held to [p x f ; f] on all paths (rule function of C12 R12.3 run under this property).'),
     "note": "Trusted: makeWrench / Wrench layout (C12); Robot statics table (C06).",
 }
 
